@@ -15,6 +15,7 @@ mod prng;
 mod props;
 mod refimpl;
 mod rngsvc;
+mod rotate;
 mod runner;
 mod sched;
 mod textcheck;
